@@ -2,6 +2,8 @@
 from checks_path import *  # noqa
 from seq_common import run_seq, replay_seq
 from conc_common import run_conc
+import re
+from checklib import Tie, Failure, HarnessError, sh
 
 PROPERTY = 'C22'
 PROPS = ['SalsaVerif.Props.C22Core', 'SalsaVerif.Props.C14Sync']
@@ -17,10 +19,31 @@ EXPLANATION = ('Theorems about the Lean engine model with an injected panic at t
 ASSUMPTIONS = ['theorem covers bodies of the Core fragment; panics in PartialEq / event callback / interning hash are covered by the systematic injection run, not by a theorem',
                'user Hash panics during interner key-map growth are not injected (see DESIGN: C22 #3)', 'panic = abort builds are out of scope']
 
+def run_abort_after_identity_change(ctx):
+    """directed history of the struct harness (`vh structs demo-unwind`): a creator re-creates its struct under a COLLIDING
+    identity hash with a changed identity field (slot updated in place, generation bumped), a later sub-query of the same execution
+    panics, the request is retried in the same revision; the reader of the identity field must return the from-scratch value."""
+    t = Tie('structs-abort-after-identity-change')
+    t.rule = 'one directed 5-op history on real salsa (constant identity hash, panic injected into a sub-query after the identity-changed update)'
+    binp = ctx.cargo_bin('structs')
+    rc, out, _ = sh([binp, 'demo-unwind'], timeout=120)
+    res = re.findall(r'note t0 result reader 0 = (\d+)', out)
+    if rc != 0 or len(res) < 2:
+        raise HarnessError('structs demo-unwind gave no results: ' + out[-400:])
+    t.evaluations = 1
+    t.distinct_nontrivial = 1
+    t.samples.append({'trace': [l for l in out.split('\n') if l][:14]})
+    if res[-1] != '1':
+        rp = ctx.save_replay('structs-demo-unwind.txt', out)
+        t.failures.append(Failure('oracle', 'after a panic that aborted an execution which had re-created a struct under a colliding identity hash, '
+                                            'the retried request returns %s (from scratch: 1)' % res[-1], replay=rp,
+                                  key='abort-after-identity-change-stale-generation'))
+    return t
+
 def ties(ctx):
     n = 30 if ctx.tier == 'quick' else 600
     m = 200 if ctx.tier == 'quick' else 5000
-    return [run_seq(ctx, 'inject', n, corpus='C22'), run_conc(ctx, 'c22', 'threads', m)]
+    return [run_seq(ctx, 'inject', n, corpus='C22'), run_conc(ctx, 'c22', 'threads', m), run_abort_after_identity_change(ctx)]
 
 def search(ctx, reason):
     t = run_seq(ctx, 'inject', 600, seed_offset=96, tag='search-inject')
